@@ -322,6 +322,35 @@ def check_threads(world) -> Dict[str, Any]:
             from mc.engine import _where
 
             viol.append((f"{tag}/threads/crash/{type(ex).__name__}/{_where(traceback.format_exc())}", dict(error=repr(ex)[:300])))
+    # one call graph over two ranks whose threads nest differently under the same event ids: the stack objects of
+    # rank 0 must still describe rank 0 after rank 1 has been built
+    try:
+        evs1 = [kineto.cpu_op("aten::root", E0 - 5, 2, ext=0, pid=100, tid=5)]
+        for k, (s_, e_) in enumerate(fb[::-1] + fa):
+            evs1.append(kineto.cpu_op(f"aten::r1op{k}", E0 + 4 * s_ + 1, max(4 * (e_ - s_), 1), ext=k + 1, pid=100, tid=5))
+        ta2, _ = htaenv.load_world({0: evs, 1: evs1})
+        execs += 1
+        cg2 = NewCallGraph(ta2.t)
+        events0 = per_thread[(100, 5)]
+        nm = cg2.rank_to_nodes[0]
+        ids0 = [e[0] for e in events0]
+        if any(i not in nm for i in ids0):
+            viol.append(("callgraph-two-ranks/rank0-stack-objects-lost", dict(spans=world["spans"], spans_b=world["spans_b"])))
+        else:
+            nodes = {i: (int(nm[i].parent), int(nm[i].depth), [int(c) for c in nm[i].children if nm[c].device.name != "GPU"]) for i in ids0}
+            roots = {p_ for (p_, _, _) in nodes.values() if p_ not in nodes}
+            if len(roots) == 1:
+                root = next(iter(roots))
+                nodes[root] = (-99, -1, [i for i, v in nodes.items() if v[0] == root])
+                verify(nodes, events0, root, "callgraph-two-ranks/rank0", viol, dict(events=events0))
+            else:
+                viol.append(("callgraph-two-ranks/rank0-parents-outside-thread", dict(roots=sorted(roots))))
+    except Exception as ex:
+        import traceback
+
+        from mc.engine import _where
+
+        viol.append((f"callgraph-two-ranks/crash/{type(ex).__name__}/{_where(traceback.format_exc())}", dict(error=repr(ex)[:300])))
     return dict(viol=_dedupe(viol), nontrivial=True, outcome=("threads", tuple(fa), tuple(fb)), execs=execs, extra_transitions=execs - 1)
 
 
